@@ -521,7 +521,7 @@ func supervise(prop, tier string) int {
 						return
 					}
 				}
-				res, crashed, text, err := p.call(request{Cmd: "run", Property: prop, Seed: seed, Run: run, Tier: tier}, 60*time.Second)
+				res, crashed, text, err := p.call(request{Cmd: "run", Property: prop, Seed: seed, Run: run, Tier: tier}, 90*time.Second)
 				if err != nil && strings.HasPrefix(err.Error(), "watchdog") {
 					// a stalled machine (a VM snapshot, a burst of other load) makes every worker miss its deadline at
 					// once: give the run a second, longer chance in a fresh worker before calling it harness trouble
@@ -531,7 +531,7 @@ func supervise(prop, tier string) int {
 					stats["watchdog_retries"]++
 					mu.Unlock()
 					if p, err = startProc(d.Race); err == nil {
-						res, crashed, text, err = p.call(request{Cmd: "run", Property: prop, Seed: seed, Run: run, Tier: tier}, 5*time.Minute)
+						res, crashed, text, err = p.call(request{Cmd: "run", Property: prop, Seed: seed, Run: run, Tier: tier}, 8*time.Minute)
 					}
 				}
 				if err != nil {
